@@ -145,6 +145,19 @@ def run(chk, replay=None):
             model_exprs.append("eval_log [%s] %s" % ("; ".join(log_terms), lib.coq_list([kid[k] for k in keys])))
             inv = {v: s for s, v in vid.items()}
             model_expect.append((o, keys, inv))
+    # ---- no majority: both followers frozen, publish to the (first) leader, kill the leader ------------
+    o = nodescen.scenario_no_majority(binary, rng)
+    n_eval += 1
+    nontrivial.add(("no_majority",))
+    st, body = o["publish_without_majority"]
+    if st == 200 and body.strip() == "true":
+        lost = [n for n, (gst, gbody) in o["followers_serve"].items() if not (gst == 200 and gbody == "x")]
+        what = ("a publish was acknowledged while BOTH followers were frozen (no majority, answered in %ss)%s"
+                % (o["publish_s"], "; after kill -9 of the leader the surviving majority %s does not serve it: the acknowledged write is lost"
+                   % lost if lost and o.get("new_leader") else ""))
+        chk.classify("ack-without-majority:first-leader", what, {"scenario": "no_majority", "obs": o})
+    samples.append({"scenario": "no_majority", "publish": o["publish_without_majority"], "followers": o.get("followers_serve")})
+
     # ---- stale leader: local routing, but client_write can no longer commit (ForwardToLeader) ----------
     for rep in range(1 if tier == "quick" else 4):
         o = nodescen.scenario_stale_leader(binary, rng)
